@@ -74,3 +74,61 @@ func VH_C09_splitat_mixed_Q() {
 		}
 	}
 }
+
+// C09: several cuts inside one Bézier.  The curves are uniformly parametrised straight Béziers
+// (control points equally spaced on a line: the point at parameter t is start + t (end - start),
+// and the arc length is linear in t), so that with the inverse arc length replaced by its exact
+// linear form every cut point has a closed form: the k-th piece ends at start + (t_k/L)(end -
+// start).  Three cut positions in one cubic or quadratic (12 combinations from grids; concrete enumeration): the bookkeeping
+// of the running parameter across cuts (global parameter of the last cut against the parameter
+// on the remaining part) decides the third cut.
+func vhC09InvSpeedLinear(N int, gl gaussLegendreFunc, fp func(float64) float64, tmin, tmax float64) (func(float64) float64, float64) {
+	dT := vhC09CurveLen
+	return func(l float64) float64 { return tmin + (tmax-tmin)*l/dT }, dT
+}
+
+var vhC09CurveLen float64
+
+func VH_C09_splitat_many_cuts_Q() {
+	if !vInterp() {
+		return
+	}
+	vStub("!github.com/tdewolff/canvas.invSpeedPolynomialChebyshevApprox", vhC09InvSpeedLinear)
+	p := &Path{}
+	cubic := vChoose(0, 1) == 1
+	// from (0,0) to (30,0) resp. (0,0) to (18,24): length 30
+	dir := []Point{{1, 0}, {0.6, 0.8}}[vChoose(0, 1)]
+	at := func(s float64) Point { return Point{dir.X * s, dir.Y * s} }
+	if cubic {
+		p.d = []float64{MoveToCmd, 0, 0, MoveToCmd, CubeToCmd, at(10).X, at(10).Y, at(20).X, at(20).Y, at(30).X, at(30).Y, CubeToCmd}
+	} else {
+		p.d = []float64{MoveToCmd, 0, 0, MoveToCmd, QuadToCmd, at(15).X, at(15).Y, at(30).X, at(30).Y, QuadToCmd}
+	}
+	vhC09CurveLen = 30
+	// cut positions from grids (with symbolic cuts every query is a polynomial in the cuts through
+	// cubicBezierSplit and the builders' collinearity tests: 4-6 minutes and dozens of unknowns);
+	// the running-parameter bookkeeping does not depend on where the cuts are
+	t1 := []float64{2.5, 7}[vChoose(0, 1)]
+	t2 := []float64{11, 15.5}[vChoose(0, 1)]
+	t3 := []float64{16.25, 22.5, 29}[vChoose(0, 2)]
+	qs := p.SplitAt(t1, t2, t3)
+	vAssertI("C09.manycuts.count", len(qs) == 4)
+	if len(qs) != 4 {
+		return
+	}
+	ok := true
+	prev := Point{0, 0}
+	ends := []float64{t1, t2, t3, 30}
+	for k, q := range qs {
+		subs, dec := vhDecode(q.d)
+		ok = ok && dec && len(subs) == 1 && len(subs[0].segs) == 1
+		if !ok {
+			break
+		}
+		st, en := subs[0].start, subs[0].segs[0].end
+		w := at(ends[k])
+		ok = ok && math.Abs(st.X-prev.X) <= 1e-6 && math.Abs(st.Y-prev.Y) <= 1e-6 && math.Abs(en.X-w.X) <= 1e-6 && math.Abs(en.Y-w.Y) <= 1e-6
+		prev = w
+	}
+	vAssertI("C09.manycuts.every_cut_at_its_arc_length", ok)
+}
